@@ -106,7 +106,21 @@ def check_precedence(ctx: Check, tree: Tree, prefixes: tuple[str, ...]) -> int:
         hz = precedence_hazards(tree, fn)
         if hz:
             hole, why = hz[0]
-            ctx.violation("R-PREC", f"{fn.qual}::precedence::{unparse(hole)}", tree.loc(hole), f"{fn.qual}: {why}",
+            # key: the field of the class that the placeholder prints (not the name of the local that holds it)
+            label = unparse(hole)
+            try:
+                from ..rules import self_args_unpackings
+                from ..exprmodel import expression_classes
+
+                ec = expression_classes(tree).get(fn.cls.qual) if fn.cls is not None else None
+                if ec is not None and isinstance(hole, ast.Name):
+                    for _st, elts, _ in self_args_unpackings(fn):
+                        for e, f_ in zip(elts, [x.name for x in ec.sympy_fields]):
+                            if isinstance(e, ast.Name) and e.id == hole.id:
+                                label = f"field {f_}"
+            except Exception:  # noqa: BLE001
+                pass
+            ctx.violation("R-PREC", f"{fn.qual}::precedence::{label}", tree.loc(hole), f"{fn.qual}: {why}",
                           "printer._print returns e.g. `a + b` for a sum without parentheses: `-{x}` / `{x}**2` / `{x} * c` then bind to the last term only, "
                           "so the generated code of the folded form computes something else than the unfolded expression for compound arguments")
         else:
